@@ -251,13 +251,14 @@ class Doc:
 
 class ThriftGen:
     def __init__(self, rng, exotic=0.5, max_fields=8, max_items=10, n_files=None, recursion=True, defaults=True,
-                 annotations=True, union_cycles=0.0, path_kw_pairs=0.0, underscore=0.0, super_const=0.0):
+                 annotations=True, union_cycles=0.0, path_kw_pairs=0.0, underscore=0.0, super_const=0.0, arc_btree_edges=0.0, btree_double=0.0):
         self.r = rng
         self.exotic = exotic
         self.max_fields, self.max_items = max_fields, max_items
         self.n_files = n_files
         self.recursion, self.defaults, self.annotations = recursion, defaults, annotations
         self.union_cycles, self.path_kw_pairs, self.underscore, self.super_const = union_cycles, path_kw_pairs, underscore, super_const
+        self.arc_btree_edges, self.btree_double = arc_btree_edges, btree_double
         self.doc = Doc()
 
     # ---- what is visible from file fi: own items and items of (directly) included files
@@ -458,8 +459,9 @@ class ThriftGen:
                 f["default"] = self.default_for(fi, t)
             if self.annotations and kind == "struct":
                 q = r.random()
-                # btree containers holding doubles get #[derive(Hash, Eq, Ord)]: finding F-14k
-                if q < 0.04 and t[0] == "map" and self.no_double(t[1]) and self.no_double(t[2]):
+                # btree containers holding doubles get #[derive(Hash, Eq, Ord)]: finding F-14k (class predicted per document by
+                # Derive.v: btree_unsupported_b); produced with probability btree_double only
+                if q < 0.04 and t[0] == "map" and self.no_double(t[1]) and (self.no_double(t[2]) or r.random() < self.btree_double):
                     f["annos"].append(("pilota.rust_type", "btree"))
                 elif q < 0.08 and t[0] == "set" and self.no_double(t[1]):
                     f["annos"].append(("pilota.rust_type", "btree"))
@@ -565,22 +567,28 @@ class ThriftGen:
         def carrier(t):
             q = r.random()
             if q < 0.25:
-                return t, "optional"
+                return t, "optional", []
             if q < 0.35:
-                return t, r.choice(["", "required"])          # plain by-value edge: BoxedPlugin must box it
-            if q < 0.65:
-                return ("list", t), r.choice(["", "required", "optional"])
-            if q < 0.8:
-                return ("list", ("list", t)), ""
-            return ("map", ("base", r.choice(["string", "i32"])), t), r.choice(["", "required"])
+                return t, r.choice(["", "required"]), []      # plain by-value edge: BoxedPlugin must box it
+            if q < 0.62:
+                return ("list", t), r.choice(["", "required", "optional"]), []
+            if q < 0.76:
+                return ("list", ("list", t)), "", []
+            if q < self.arc_btree_edges * 0.5 + 0.76:
+                # edges the workspace graph does not have (Arc, btree containers): when the cycle's other member loses a derive
+                # through a later field, this member keeps it (finding F-14s, predicted per document by Derive.v)
+                return t, "optional", [("pilota.rust_wrapper_arc", "true")]
+            if q < self.arc_btree_edges + 0.76:
+                return ("map", ("base", "i32"), t), "", [("pilota.rust_type", "btree")]
+            return ("map", ("base", r.choice(["string", "i32"])), t), r.choice(["", "required"]), []
         for i, it in enumerate(its):
             fid = 1
             order = []
-            t, req = carrier(("ref", fi, nms[(i + 1) % k]))
-            order.append(dict(id=0, name="next", ty=t, req=req, default=None, annos=[]))
+            t, req, an = carrier(("ref", fi, nms[(i + 1) % k]))
+            order.append(dict(id=0, name="next", ty=t, req=req, default=None, annos=an))
             if r.random() < 0.3:
-                t, req = carrier(("ref", fi, nms[(i + k - 1) % k]))
-                order.append(dict(id=0, name="prev", ty=t, req=req, default=None, annos=[]))
+                t, req, an = carrier(("ref", fi, nms[(i + k - 1) % k]))
+                order.append(dict(id=0, name="prev", ty=t, req=req, default=None, annos=an))
             if leaf is not None and r.random() < 0.5:
                 order.append(dict(id=0, name="weight", ty=("ref", fi, leaf), req=r.choice(["", "required", "optional"]), default=None, annos=[]))
             if r.random() < 0.3:
